@@ -178,6 +178,24 @@ theorem ber_loop_is_comparison (z b0 b1 b2 b3 b4 b5 b6 : Nat)
               · exact ⟨_, rfl, by omega⟩
               · exact ⟨_, rfl, by omega⟩
 
+/-- **the integer part of BerExp, exactly**: with e = ApproxExp's value (≥ 1), the shift s and 7 random bytes read as the
+    big-endian number B, the result is `true` exactly when B < ⌊((2e − 1) >> min(s, 63)) / 2^8⌋ mod 2^56 — in both build
+    modes; so under uniform bytes the acceptance probability is that threshold over 2^56 -/
+theorem ber_exp_core_law (chk : Bool) (e s b0 b1 b2 b3 b4 b5 b6 : Nat) (he : 1 ≤ e)
+    (h0 : b0 < 256) (h1 : b1 < 256) (h2 : b2 < 256) (h3 : b3 < 256) (h4 : b4 < 256) (h5 : b5 < 256) (h6 : b6 < 256) :
+    berExpCore chk e s [b0, b1, b2, b3, b4, b5, b6] =
+      .ok (decide (b0 * 2 ^ 48 + b1 * 2 ^ 40 + b2 * 2 ^ 32 + b3 * 2 ^ 24 + b4 * 2 ^ 16 + b5 * 2 ^ 8 + b6 <
+        (e * 2 - 1) / 2 ^ min s 63 % 2 ^ 64 / 2 ^ 8 % 2 ^ 56)) := by
+  unfold berExpCore
+  have : e * 2 ≥ 1 := by omega
+  simp only [this, if_true, Res.bind_ok]
+  rw [ber_shifts]
+  obtain ⟨w, hw, hiff⟩ := ber_loop_is_comparison ((e * 2 - 1) / 2 ^ min s 63 % 2 ^ 64) b0 b1 b2 b3 b4 b5 b6 h0 h1 h2 h3 h4 h5 h6
+  rw [hw]
+  simp only [Res.bind_ok, Res.pure_eq]
+  congr 1
+  exact decide_eq_decide.mpr hiff
+
 /-- **ApproxExp core never underflows**: one Horner step with z < 2^63 and y ≤ cu < 2^64 -/
 theorem horner_step_ok (chk : Bool) (z y cu : Nat) (hz : z < 2 ^ 63) (hy : y ≤ cu) (hcu : cu < 2 ^ 64) :
     ∃ y', hornerStep chk z y cu = .ok y' ∧ y' ≤ cu := by
